@@ -1360,6 +1360,14 @@ fn for_iter(cx: &Ctx, e: &Expr) -> R<String> {
     if s == "0..2" { return Ok("[0, 1]".into()); }
     if s == "0..4" { return Ok("[0, 1, 2, 3]".into()); }
     if s == "U256::from(other).bits_without_leading_zeros()" { return Ok("(bitsMSB other.val)".into()); }
+    // `a..b` with integer literals: the list a, a+1, .., b-1
+    if let Expr::Range(rg) = e {
+        if let (Some(a), Some(b), RangeLimits::HalfOpen(_)) = (rg.start.as_deref(), rg.end.as_deref(), &rg.limits) {
+            if let (Some(x), Some(y)) = (lit_int(a), lit_int(b)) {
+                if let (Ok(x), Ok(y)) = (x.parse::<u64>(), y.parse::<u64>()) { if x <= y && y - x <= 64 { return Ok(format!("(List.range' {} {})", x, y - x)); } }
+            }
+        }
+    }
     // `<canonical integer>.bits_without_leading_zeros()` for any expression of that kind (e.g. a `let k = U256::from(other);` before the loop)
     if let Expr::MethodCall(m) = e {
         if m.method == "bits_without_leading_zeros" && m.args.is_empty() {
